@@ -143,6 +143,9 @@ class ModbusRtuFramer(ModbusFramer):
                     self.populateHeader()
                 except (IndexError, struct.error):
                     # the size of this frame cannot be computed yet
+                    if len(self._buffer) > 256:
+                        # ... and never will: no RTU frame is that long
+                        self.resetFrame()
                     return False
                 if self._header['len'] > 256:
                     # no RTU frame is longer than 256 bytes: the buffer does
